@@ -167,7 +167,7 @@ PROPS = {
         "rule": "C09 programs: latch (count 0-8, count_down(n)/arrive_and_wait/wait/try_wait, late waiters), barrier (1-9 "
                 "participants incl. more than workers, 1-5 phases, arrive+wait(token)/arrive_and_wait/arrive_and_drop, counting "
                 "completion functor), event (set/wait), call_once (2-6 callers, first k attempts throw); tasks and OS threads.",
-        "required_probes": ["latch.wait", "latch.arrive_and_wait", "barrier.drop", "barrier.arrive_then_wait", "event.wait", "once.throw"],
+        "required_probes": ["latch.wait", "latch.arrive_and_wait", "barrier.drop", "barrier.arrive_then_wait", "event.wait", "once.throw", "once.thrower_gave_up"],
     },
     "C08": {
         "quick_runs": 24000, "thorough_runs": 400000, "seed": 8000001,
